@@ -103,6 +103,53 @@ func c17CheckURL(c *Ctx, u string, srcHosts []string, srcDomains []string, cnt *
 	cnt.mu.Unlock()
 }
 
+// c17InContract reports whether u has the shape the property quantifies over:
+// scheme://host[:port] followed by nothing, a /path or a ?query; host a domain
+// name or IPv4 literal without empty labels; no userinfo; no fragment directly
+// after the host.
+func c17InContract(u string) bool {
+	i := strings.Index(u, "://")
+	if i <= 0 {
+		return false
+	}
+	switch strings.ToLower(u[:i]) {
+	case "http", "https", "ws", "wss":
+	default:
+		return false
+	}
+	rest := u[i+3:]
+	end := strings.IndexAny(rest, "/?#")
+	auth := rest
+	if end >= 0 {
+		if rest[end] == '#' {
+			return false
+		}
+		auth = rest[:end]
+	}
+	host := auth
+	if j := strings.LastIndexByte(auth, ':'); j >= 0 {
+		host = auth[:j]
+		port := auth[j+1:]
+		if port == "" {
+			return false
+		}
+		for _, ch := range port {
+			if ch < '0' || ch > '9' {
+				return false
+			}
+		}
+	}
+	if host == "" || strings.Contains(host, "..") || host[0] == '.' || host[len(host)-1] == '.' {
+		return false
+	}
+	for _, ch := range host {
+		if !(ch >= 'a' && ch <= 'z' || ch >= 'A' && ch <= 'Z' || ch >= '0' && ch <= '9' || ch == '.' || ch == '-' || ch == '_') {
+			return false
+		}
+	}
+	return true
+}
+
 func clip(s string) string {
 	if len(s) > 120 {
 		return s[:100] + fmt.Sprintf("…(%d bytes)", len(s))
@@ -235,6 +282,31 @@ func init() {
 				c17CheckURL(c, mb[:n+1], c17Sources[:3], srcDomains[:3], cnt)
 			}
 		}
+		// corpus layer: the recorded real requests of testdata/requests.json whose
+		// URL has the shape the contract covers, each from its recorded frame
+		reqs := corpusRequests()
+		stride := 4
+		if c.Thorough() {
+			stride = 1
+		}
+		var corpusURLs int64
+		var picked []corpusRequest
+		for i := 0; i < len(reqs); i += stride {
+			if c17InContract(reqs[i].URL) {
+				picked = append(picked, reqs[i])
+			}
+		}
+		c.parallel(len(picked), func(i int) {
+			var srcs, doms []string
+			if f := picked[i].Frame; c17InContract(f) {
+				if pu, err := url.Parse(f); err == nil && pu.Hostname() != "" {
+					srcs, doms = []string{pu.Hostname()}, []string{refDomain(pu.Hostname())}
+				}
+			}
+			c17CheckURL(c, picked[i].URL, srcs, doms, cnt)
+		})
+		corpusURLs = int64(len(picked))
+		c.Run.Set("corpus_urls", corpusURLs)
 		c.Run.Set("hostnames", int64(len(hosts)))
 		c.Run.Set("evaluations", cnt.evals)
 		c.Run.Set("distinct_nontrivial", cnt.nontrivial)
